@@ -119,8 +119,9 @@ static void load_third_lp(SoPlex& spx, int variant, bool badlyScaled = false)
    spx.addRowRational(LPRowRational(-inf, r2, Rational(rq(5, 7) * rowf)));
    spx.addRowRational(LPRowRational(-inf, r3, rq(11, 13)));
 }
-static const char* WNAME[] = {"exact-pure-boosting", "construct-destroy-only", "exact-default", "float-default", "float-geo8-steep-nopresolve", "float-leastsq-devex", "exact-boosting-variant", "float-geo1-variant"};
-static const int NW = 8;
+static const char* WNAME[] = {"exact-pure-boosting", "construct-destroy-only", "exact-default", "float-default", "float-geo8-steep-nopresolve", "float-leastsq-devex", "exact-boosting-variant", "float-geo1-variant", "float-coarse-epsilon", "float-precise-nearly-feasible"
+                              };
+static const int NW = 10;     // 8 "float-coarse-epsilon", 9 "float-precise-nearly-feasible" (appended to WNAME below)
 
 static std::string run_workload(int w, std::ostream* log)
 {
@@ -155,7 +156,41 @@ static std::string run_workload(int w, std::ostream* log)
       if(w == 5) { spx->setIntParam(SoPlex::SCALER, SoPlex::SCALER_LEASTSQ); spx->setIntParam(SoPlex::PRICER, SoPlex::PRICER_DEVEX); }
       if(w == 7) { spx->setIntParam(SoPlex::SCALER, SoPlex::SCALER_GEO1); spx->setIntParam(SoPlex::SIMPLIFIER, SoPlex::SIMPLIFIER_OFF); }
    }
+   if(w == 8)
+   {
+      // coarse solve: large zero tolerance and feasibility / optimality tolerances
+      spx->setIntParam(SoPlex::SIMPLIFIER, SoPlex::SIMPLIFIER_OFF);
+      spx->setRealParam(SoPlex::EPSILON_ZERO, 1e-6);
+      spx->setRealParam(SoPlex::EPSILON_FACTORIZATION, 1e-10);
+      spx->setRealParam(SoPlex::EPSILON_UPDATE, 1e-8);
+      spx->setRealParam(SoPlex::EPSILON_PIVOT, 1e-5);
+      spx->setRealParam(SoPlex::FEASTOL, 1e-4);
+      spx->setRealParam(SoPlex::OPTTOL, 1e-4);
+   }
+   if(w == 9)
+   {
+      // precise solve of an LP that is infeasible by 1e-7: the verdict depends on the tolerances this object was given (and on nothing another object was given)
+      spx->setIntParam(SoPlex::SIMPLIFIER, SoPlex::SIMPLIFIER_OFF);
+      spx->setRealParam(SoPlex::FEASTOL, 1e-9);
+      spx->setRealParam(SoPlex::OPTTOL, 1e-9);
+   }
    sched_point("api:load");
+   if(w == 9)
+   {
+      DSVector e(0);
+      spx->setIntParam(SoPlex::OBJSENSE, SoPlex::OBJSENSE_MINIMIZE);
+      spx->addColReal(LPCol(1.0, e, 10.0, 0.0));
+      spx->addColReal(LPCol(2.0, e, 10.0, 0.0));
+      spx->addColReal(LPCol(0.0, e, 10.0, 0.0));
+      DSVector r1(3), r2(3), r3(3);
+      r1.add(0, 1.0); r1.add(1, 1.0);
+      r2.add(0, 1.0); r2.add(1, 1.0);
+      r3.add(1, 1.0); r3.add(2, 1.0);
+      spx->addRowReal(LPRow(3.0, r1, 1e100));
+      spx->addRowReal(LPRow(-1e100, r2, 3.0 - 1e-7));
+      spx->addRowReal(LPRow(1.0, r3, 8.0));
+   }
+   else
    load_third_lp(*spx, (w == 6 || w == 7) ? 1 : 0, w == 4 || w == 5 || w == 7);
    sched_point("api:optimize");
    spx->optimize();
@@ -189,6 +224,26 @@ static std::string run_workload(int w, std::ostream* log)
    sched_point("api:destroy");
    delete spx;
    return dg.str();
+}
+
+// The parameter tables of SoPlex::Settings are process-global (class-static): they describe ranges and defaults and must be read-only after static initialisation,
+// whatever any solver object does.  Digest of their complete content, compared before and after every job.
+static uint64_t settings_tables_digest()
+{
+   uint64_t h = 1469598103934665603ULL;
+   auto mix = [&](const void* p, size_t n) { const unsigned char* b = (const unsigned char*)p; for(size_t i = 0; i < n; ++i) { h ^= b[i]; h *= 1099511628211ULL; } };
+   for(int k = 0; k < SoPlex::BOOLPARAM_COUNT; ++k) { bool v = SoPlex::Settings::boolParam.defaultValue[k]; mix(&v, sizeof v); mix(SoPlex::Settings::boolParam.name[k].data(), SoPlex::Settings::boolParam.name[k].size()); }
+   for(int k = 0; k < SoPlex::INTPARAM_COUNT; ++k)
+   {
+      int v[3] = {SoPlex::Settings::intParam.defaultValue[k], SoPlex::Settings::intParam.lower[k], SoPlex::Settings::intParam.upper[k]};
+      mix(v, sizeof v); mix(SoPlex::Settings::intParam.name[k].data(), SoPlex::Settings::intParam.name[k].size());
+   }
+   for(int k = 0; k < SoPlex::REALPARAM_COUNT; ++k)
+   {
+      double v[3] = {(double)SoPlex::Settings::realParam.defaultValue[k], (double)SoPlex::Settings::realParam.lower[k], (double)SoPlex::Settings::realParam.upper[k]};
+      mix(v, sizeof v); mix(SoPlex::Settings::realParam.name[k].data(), SoPlex::Settings::realParam.name[k].size());
+   }
+   return h;
 }
 
 // one controlled execution of the workloads ws under schedule prefix; returns digests
@@ -404,7 +459,7 @@ int main(int argc, char** argv)
    rep.phase("free-running workloads under ThreadSanitizer", 1, [&](uint64_t, int, Ctx & c) -> uint64_t
    {
       int reps = thorough ? 20 : 6;
-      std::vector<std::vector<int>> mixes = {{0, 1}, {0, 0}, {0, 6, 2, 3}, {3, 4, 5, 3}, {4, 7, 4, 7}, {0, 1, 2, 3, 4, 5, 6, 7, 0, 1, 2, 3, 4, 5, 6, 7}};
+      std::vector<std::vector<int>> mixes = {{0, 1}, {0, 0}, {0, 6, 2, 3}, {3, 4, 5, 3}, {4, 7, 4, 7}, {9, 8, 9, 8}, {0, 1, 2, 3, 4, 5, 6, 7, 8, 9, 2, 3, 4, 5, 6, 7}};
       for(auto& mix : mixes)
          for(int r = 0; r < reps; ++r)
          {
@@ -436,12 +491,14 @@ int main(int argc, char** argv)
    jobs.push_back({{3, 4}, thorough ? 2 : 1, 200000});   // two floating-point solves (different scaler / pricer / simplifier)
    jobs.push_back({{5, 0}, 1, 200000});
    jobs.push_back({{4, 7}, thorough ? 2 : 1, 200000});   // two geometric scalers at work at the same time
+   jobs.push_back({{9, 8}, thorough ? 2 : 1, 200000});   // a precise solve next to an object that was given coarse tolerances (the precise one is referenced first)
    if(thorough) { jobs.push_back({{0, 1, 6}, 1, 200000}); jobs.push_back({{0, 1}, 3, 400000}); }
    double perJob = (rep.deadline - now_s() - 20) / jobs.size();
    rep.phase("all schedules within the preemption bound", jobs.size(), [&](uint64_t idx, int, Ctx & c) -> uint64_t
    {
       const Job& j = jobs[idx];
       Explorer ex;
+      const uint64_t tables0 = settings_tables_digest();
       ex.ws = j.ws; ex.bound = j.bound; ex.c = &c; ex.maxExec = j.cap; ex.deadline = now_s() + perJob;
       for(int w : j.ws) ex.ref.push_back(run_alone(w));
       // the sequential digest itself must be reproducible
@@ -450,6 +507,13 @@ int main(int argc, char** argv)
       { Exec a = execute(j.ws, {}, true), b = execute(j.ws, {}, true); if(a.digests != b.digests || a.pts.size() != b.pts.size()) c.violation("controlled-execution-not-deterministic", sched_str(j.ws, {}), ""); c.count("points_in_default_schedule", a.pts.size()); }
       ex.explore({});
       c.count("jobs");
+      c.count("global_table_digests_compared");
+      if(settings_tables_digest() != tables0)
+      {
+         std::string nm;
+         for(int w : j.ws) nm += std::string(nm.empty() ? "" : "+") + WNAME[w];
+         c.violation("process-global-state-mutated:SoPlex::Settings parameter tables@" + nm, sched_str(j.ws, {}), "the class-static parameter tables (ranges / defaults shared by all solver objects of the process) changed while these workloads ran");
+      }
       c.count("distinct_outcomes", ex.outcomes.size());
       if(ex.capped) c.count("jobs_capped");
       std::string names;
